@@ -140,6 +140,7 @@ func runC16(c *Ctx) {
 		}
 	}
 
+	checkOptionSplitter(c, "C16.R7")
 	importRulesNoRec(c, runC06, map[string]string{"C06.R2": "C16.R6", "C06.R3": "C16.R6"}, map[string]string{"C16.R6": "the basic rule the option is derived from is selected by the documented admission table: an exception is never discarded by a referrer's $genericblock/$urlblock (shared with C06.R2/R3)"})
 
 	// ---------- R2 ----------
@@ -418,4 +419,50 @@ func cosmeticGateRoles(c *Ctx, cem *ssa.Function) map[int]string {
 	}
 	_ = token.NoPos
 	return roles
+}
+
+// checkOptionSplitter: the function that cuts the option list of a rule into
+// option names consumes the whole list: none of its loops is left before its
+// input is exhausted (an early exit drops every modifier behind that point,
+// e.g. "$elemhide,,jsinject" would lose jsinject).
+func checkOptionSplitter(c *Ctx, rule string) {
+	c.Rule(rule, "WIRE", "the option-list splitter consumes the whole list (no loop is left early)", 1)
+	lo := c.P.Method("rules", "NetworkRule", "loadOptions")
+	if lo == nil {
+		c.Fail(rule, "anchor:NetworkRule.loadOptions", token.NoPos, "unresolved anchor")
+		return
+	}
+	// role: callee of loadOptions returning []string
+	var sp *ssa.Function
+	eachInstrG(c.P, lo, func(_ *ssa.BasicBlock, in ssa.Instruction) {
+		if ci, ok := in.(ssa.CallInstruction); ok {
+			if cal := ci.Common().StaticCallee(); cal != nil && c.P.IsLibFunc(cal) && !c.P.IsNewHelper(cal) && cal.Signature.Results().Len() == 1 && typeStr(cal.Signature.Results().At(0).Type()) == "[]string" &&
+				cal.Signature.Params().Len() >= 1 && typeStr(cal.Signature.Params().At(0).Type()) == "string" {
+				sp = cal
+			}
+		}
+	})
+	if sp == nil {
+		// options split with a library function (strings.Split...): nothing to check here
+		c.OK(rule, "loadOptions: option list splitter", lo.Pos(), "no repository function splits the option list")
+		return
+	}
+	c.Fn(FuncName(sp))
+	bad := ""
+	n := 0
+	for _, gf := range groupFuncs(c.P, sp) {
+		for _, l := range loopsOf(gf) {
+			n++
+			for _, ex := range l.Exits {
+				if ex[0] != l.Header {
+					bad = c.P.Pos(ex[0].Instrs[len(ex[0].Instrs)-1].Pos()) + ": a loop of " + shortFn(sp) + " can be left before its input is exhausted: the modifiers behind that point are silently dropped"
+				}
+			}
+		}
+	}
+	if n == 0 && bad == "" {
+		c.OK(rule, shortFn(sp)+": consumes the whole option list", sp.Pos(), "no loops (library calls only)")
+		return
+	}
+	c.Check(bad == "", rule, shortFn(sp)+": consumes the whole option list", sp.Pos(), fmt.Sprintf("%d loop(s), each left only when its condition fails", n), bad)
 }
